@@ -286,6 +286,9 @@ class DFA(FSA):
     def find_next_edge(self, s, label, asbytes):
         if label is None:
             label = b"\x00" if asbytes else u'\0'
+        elif not asbytes and ord(label) >= 0x10FFFF:
+            # There is no label after the last code point
+            return None
         else:
             label = (label + 1) if asbytes else unichr(ord(label) + 1)
         trans = self.transitions.get(s, {})
